@@ -3,6 +3,7 @@
 package storage
 
 import (
+	"slices"
 	"fmt"
 	"sort"
 	"sync"
@@ -20,6 +21,7 @@ type vpC03Cand struct {
 	hash  crypto.Hash
 	slots []string // slot names
 	kind  string
+	wide  bool // names 65.. inputs
 }
 
 // vpC03Setup builds a ledger with free outputs and 3..8 candidate transactions
@@ -51,6 +53,31 @@ func vpC03Setup(t *rapid.T, tag string) (*vpLedger, []*vpC03Cand) {
 			t.Fatalf("split: %v", err)
 		}
 		l.FinalizeOne(t, []crypto.Hash{ver.PayloadHash()})
+	}
+	// in a third of the cases one output is split into 66..140 unit outputs, so
+	// that one lock call can name far more inputs than the others (up to 256
+	// are allowed) and be refused at a late one
+	var wide []*vpLUTXO
+	if free0 := l.Unspent(&btc, true, true); len(free0) > 0 && rapid.IntRange(0, 2).Draw(t, "wide") == 0 {
+		u := free0[rapid.IntRange(0, len(free0)-1).Draw(t, "wide_source")]
+		w := rapid.IntRange(100, 150).Draw(t, "wide_outputs")
+		unit := common.NewIntegerFromString("0.00000001")
+		var outs []vpLOut
+		for i := 0; i < w-1; i++ {
+			outs = append(outs, vpLOut{Type: common.OutputTypeScript, Owners: []int{0}, Threshold: 1, Amount: unit})
+		}
+		outs = append(outs, vpLOut{Type: common.OutputTypeScript, Owners: []int{0}, Threshold: 1, Amount: u.Amount.Sub(unit.Mul(w - 1))})
+		tx := l.BuildSpend(btc, []*vpLUTXO{u}, outs, nil, nil)
+		ver := l.SignMaps(tx, []*vpLUTXO{u}, [][]int{{0}})
+		if err := l.Admit(ver, l.Tick(10), "transfer"); err != nil {
+			t.Fatalf("wide split: %v", err)
+		}
+		l.FinalizeOne(t, []crypto.Hash{ver.PayloadHash()})
+		for _, x := range l.Unspent(&btc, true, true) {
+			if x.Hash == ver.PayloadHash() {
+				wide = append(wide, x)
+			}
+		}
 	}
 	free := l.Unspent(&btc, true, true)
 	var cands []*vpC03Cand
@@ -112,6 +139,43 @@ func vpC03Setup(t *rapid.T, tag string) (*vpLedger, []*vpC03Cand) {
 		}
 		c.hash = c.ver.PayloadHash()
 		cands = append(cands, c)
+	}
+	if len(wide) >= 100 {
+		// the first candidate becomes a transfer over 90.. of the unit outputs; in
+		// half of the cases the outputs the other candidates also name come last
+		// in its input list, so that a refusal happens after more than 64 inputs
+		used := map[string]bool{}
+		for _, o := range cands[1:] {
+			for _, s := range o.slots {
+				used[s] = true
+			}
+		}
+		k := rapid.IntRange(90, len(wide)).Draw(t, "wide_nin")
+		pick := rapid.Permutation(vpLRange(len(wide))).Draw(t, "wide_pick")[:k]
+		if rapid.Bool().Draw(t, "wide_contended_last") {
+			sort.SliceStable(pick, func(a, b int) bool {
+				return !used["U|"+wide[pick[a]].id()] && used["U|"+wide[pick[b]].id()]
+			})
+		}
+		c := &vpC03Cand{kind: "transfer", wide: true}
+		var ins []*vpLUTXO
+		var signers [][]int
+		sum := common.NewInteger(0)
+		for j, pi := range pick {
+			u := wide[pi]
+			ins = append(ins, u)
+			signers = append(signers, []int{0})
+			if j == 0 {
+				sum = u.Amount
+			} else {
+				sum = sum.Add(u.Amount)
+			}
+			c.slots = append(c.slots, "U|"+u.id())
+		}
+		tx := l.BuildSpend(btc, ins, []vpLOut{{Type: common.OutputTypeScript, Owners: []int{1}, Threshold: 1, Amount: sum}}, nil, nil)
+		c.ver = l.SignMaps(tx, ins, signers)
+		c.hash = c.ver.PayloadHash()
+		cands[0] = c
 	}
 	return l, cands
 }
@@ -185,8 +249,8 @@ func (m *vpC03Model) holdsAll(c *vpC03Cand) bool {
 }
 
 func TestVP_C03_owned_schedule(t *testing.T) {
-	c := kit.New(t, "C03", "rapid: 3..8 candidate transactions with overlapping slot sets (shared outputs; deposit ids differing only in chain / tx id / index incl. ids with ':'; mint batches) and a drawn global order of 10..60 lock (ordinary / finalization-path), persist, finalize and read operations (each lock call is one mutex-guarded store update, so call-granularity orders are the interleavings); oracle: sequential reference model of holder/body/finalized per slot - ordinary lock of a foreign-held slot fails and changes nothing, relock is idempotent, takeover succeeds iff no displaced holder is finalized and deletes the displaced body in the same observation, reads agree with the model after every step; non-trivial = history with a contended slot and a takeover; distinct by operation list")
-	c.Require("contended", "takeover", "takeover-refused", "relock", "atomic-fail", "deposit-cand", "mint-cand", "near-deposit-ids", "source-refinalized")
+	c := kit.New(t, "C03", "rapid: 3..8 candidate transactions with overlapping slot sets (shared outputs; in a third of the cases one transfer over 90..150 unit outputs that the other transfers contend for; deposit ids differing only in chain / tx id / index incl. ids with ':'; mint batches) and a drawn global order of 10..60 lock (ordinary / finalization-path), persist, finalize and read operations (each lock call is one mutex-guarded store update, so call-granularity orders are the interleavings); oracle: sequential reference model of holder/body/finalized per slot - ordinary lock of a foreign-held slot fails and changes nothing, relock is idempotent, takeover succeeds iff no displaced holder is finalized and deletes the displaced body in the same observation, reads agree with the model after every step; non-trivial = history with a contended slot and a takeover; distinct by operation list")
+	c.Require("contended", "takeover", "takeover-refused", "relock", "atomic-fail", "deposit-cand", "mint-cand", "near-deposit-ids", "source-refinalized", "wide-lock-refused-after-64-inputs")
 	kit.SetChecks(kit.N(150, 6000))
 	rapid.Check(t, func(t *rapid.T) {
 		l, cands := vpC03Setup(t, "c03")
@@ -252,6 +316,10 @@ func TestVP_C03_owned_schedule(t *testing.T) {
 					}
 				}
 				relock := m.holdsAll(cd)
+				before2 := map[string]crypto.Hash{}
+				for _, s := range cd.slots {
+					before2[s] = m.holder[s]
+				}
 				want := m.lock(cd, fork, byHash)
 				err := cd.ver.LockInputs(l.Store, fork)
 				trace = append(trace, fmt.Sprintf("lock(%s,%s,fork=%v)=%v", cd.kind, cd.hash.String()[:8], fork, err == nil))
@@ -260,7 +328,13 @@ func TestVP_C03_owned_schedule(t *testing.T) {
 				}
 				if err != nil {
 					if d := vpLDumpDiff(before, vpLDump(l.Store)); len(d) > 0 {
-						t.Fatalf("failed lock changed the store: %v", d)
+						t.Fatalf("failed lock (%d inputs) changed the store: %v", len(cd.slots), d[:min(len(d), 6)])
+					}
+					if cd.wide {
+						classes["wide-lock-refused"] = true
+						if first := slices.IndexFunc(cd.slots, func(s string) bool { h := before2[s]; return h.HasValue() && h != cd.hash }); first >= 64 {
+							classes["wide-lock-refused-after-64-inputs"] = true
+						}
 					}
 					if len(cd.slots) > 1 {
 						classes["atomic-fail"] = true
